@@ -109,7 +109,7 @@ def alphabet(U):
                 ops.append(('append', c, y))
                 ops.append(('remove', c, y))
                 ops.append(('move_none', c, y))
-                for i in list(range(0, n + 2)) + [-1]:
+                for i in range(-n - 2, n + 2):
                     ops.append(('insert', c, i, y))
             for L in _move_lists(n):
                 for z in tasks:
@@ -812,7 +812,7 @@ def argrel(U, a: A, op):
         args = [op[3]]
         ln = len(_lst(a, cont))
         i = op[2]
-        flags.add('idx<0' if i < 0 else 'idx>len' if i > ln else 'idx=len' if i == ln else 'idx<len')
+        flags.add(('idx=-len' if i == -ln else 'idx<-len' if i < -ln else 'idx<0') if i < 0 else 'idx>len' if i > ln else 'idx=len' if i == ln else 'idx<len')
         if ln == 0:
             flags.add('emptylist')
     elif f == 'list.parent=':
